@@ -141,3 +141,14 @@ package coreblock
 //@   assert before call#1 Iterator: len(arg2.Prefix) == len(res(Bytes, 1, 0)) + 1 && arg2.Prefix[len(res(Bytes, 1, 0))] == 47 && extends(arg2.Prefix, res(Bytes, 1, 0))
 //@   assert before call#1 Bytes: arg0 == hh.namespace
 //@   tags C04 C01
+//@
+//@ // ===== C04: every link of a new block is looked at when the heads are updated (each parent that was a
+//@ // head is replaced; the walk over the links is left early only with an error)
+//@ func updateHeads -> (err)
+//@   loop 1 ranges res(AllLinks, 1, 0)
+//@   ensures err == nil ==> exhausted(1)
+//@   tags C04
+//@
+//@ // ===== C04 / C13: blocks are deterministic because parents and links are sorted before they are encoded;
+//@ // the comparison closure of each of those sorts compares elements of the slice that is being sorted
+//@ discipline sort-less-over-sorted tags C04 C13
